@@ -31,21 +31,21 @@ type StoreSite struct {
 }
 
 type Contract struct {
-	Key      string
-	Props    []string
-	Requires []Clause
-	Ensures  []Clause
+	Key        string
+	Props      []string
+	Requires   []Clause
+	Ensures    []Clause
 	StoreSites []StoreSite // obligations at every store to a named struct field in this function ($base, $val)
-	CallSites []Clause // obligations at every call through a function value in this function ($fnbase, $arg<i>, $callee)
-	Loops    map[int]*LoopSpec
-	Inline   bool     // body is inlined at call sites (its loop specs are used there)
-	Pure     bool     // ensures clauses define the result as a function of the arguments (no heap effect)
-	Assigns  []string // informational; the effective frame is the inferred mod set
+	CallSites  []Clause    // obligations at every call through a function value in this function ($fnbase, $arg<i>, $callee)
+	Loops      map[int]*LoopSpec
+	Inline     bool     // body is inlined at call sites (its loop specs are used there)
+	Pure       bool     // ensures clauses define the result as a function of the arguments (no heap effect)
+	Assigns    []string // informational; the effective frame is the inferred mod set
 	Uses       []string // named axioms this function's proof may use
 	DynCallees []string // possible targets of calls through non-operator function values in this function
-	Trusted  bool     // contract is assumed at call sites but the body is not verified (listed as assumption)
-	Line     int
-	Opaque   []string // clause labels only
+	Trusted    bool     // contract is assumed at call sites but the body is not verified (listed as assumption)
+	Line       int
+	Opaque     []string // clause labels only
 }
 
 type Lemma struct {
@@ -63,15 +63,15 @@ type Macro struct {
 }
 
 type Spec struct {
-	Contracts map[string]*Contract
-	Order     []string
-	Ghost     []string // SMT-LIB declarations/definitions added to the prelude
-	Lemmas    []*Lemma
-	Axioms    []string // assumed facts (each listed in the evidence)
+	Contracts  map[string]*Contract
+	Order      []string
+	Ghost      []string // SMT-LIB declarations/definitions added to the prelude
+	Lemmas     []*Lemma
+	Axioms     []string // assumed facts (each listed in the evidence)
 	AxiomNames []string // parallel: "" = global (every query), otherwise only in functions that say `uses <name>`
-	Macros    map[string]*Macro
-	FieldInvs map[string]*core.Sexp // "Type.field" -> invariant over $v (assumed at loads, proved at stores)
-	Errors    []string
+	Macros     map[string]*Macro
+	FieldInvs  map[string]*core.Sexp // "Type.field" -> invariant over $v (assumed at loads, proved at stores)
+	Errors     []string
 }
 
 var clauseKeywords = map[string]bool{"func": true, "requires": true, "ensures": true, "loop": true, "invariant": true,
